@@ -53,12 +53,17 @@ func VH_C03_ServerPerCommand() {
 	_ = cli.Set("Integrity", vPick("cInt", vhLevelNames))
 	_ = cli.Set("Command", 60007)
 	_ = cli.Set("AuthMethods", "FS,SSL")
-	if vBool("client_offers_aes") {
+	offersAES := vBool("client_offers_aes")
+	sendsKey := vBool("client_sends_key")
+	// without a per-command policy this is the ordinary handshake the other C03
+	// harnesses decide: keep only the cooperative client there
+	vAssume(vOr(hookHasPolicy, vAnd(offersAES, sendsKey)))
+	if offersAES {
 		_ = cli.Set("CryptoMethods", "AES")
 	} else {
 		_ = cli.Set("CryptoMethods", "BLOWFISH")
 	}
-	if vBool("client_sends_key") {
+	if sendsKey {
 		_ = cli.Set("ECDHPublicKey", "UEVFUi1FQ0RILUtFWQ==")
 	}
 	round := 0
